@@ -33,6 +33,8 @@ import PsVerif
 #print axioms PsVerif.gqr_unconstrained_eq_qr
 #print axioms PsVerif.sspor_lead_eq_optimizer
 #print axioms PsVerif.householder_step_refines_schur
+#print axioms PsVerif.householder_loop_refines_schur_model
+#print axioms PsVerif.code_argmax_is_model_argmax
 -- C04
 #print axioms PsVerif.candScores_noMask
 #print axioms PsVerif.ccqr_score_exact
@@ -205,6 +207,10 @@ import PsVerif
 #print axioms PsVerif.ccqr_costs_spec
 #print axioms PsVerif.gqr_option_spec
 #print axioms PsVerif.box_contradictory
+#print axioms PsVerif.sspor_setter_is_its_guard
+#print axioms PsVerif.sspor_ctor_is_its_guard
+#print axioms PsVerif.sspoc_update_sensors_is_its_guard
+#print axioms PsVerif.box_guard_is_its_tree_spec
 -- C20
 #print axioms PsVerif.analysis_sound
 #print axioms PsVerif.check_rejects_write_through_view
